@@ -196,7 +196,46 @@ def literal_case(case):
     return {"ok": True, "nt": True, "out": "literal"}
 
 
-FUNCS = {"trees": tree_case, "nary": tree_case, "unsupported": unsupported_case, "natural_keys": keys_case, "natural_keys_literal": literal_case}
+WIDE_TERMS = ["x", "y", "beta_2", "2", "1/3", "I", ["cos", "x"], ["sin", "y"], ["mul", "x", "y"], ["pow", "x", "2"], ["exp", "beta_2"], ["sqrt", "2"], "F0.5", ["tan", "x"], "-3/2", ["div", "y", "2"]]
+
+
+def dialect_history_case(case):
+    """{'tree': t}: the same neutral tree is first translated with ANOTHER dialect (a numeric evaluator that also knows log/abs), then with the sympy
+    dialect: the sympy translation must be unaffected by the earlier call (value preserved; unsupported functions still refused)"""
+    import cmath
+    import operator
+    from functools import reduce
+    from orquestra.quantum.circuits.symbolic.expressions import ExpressionDialect
+    from orquestra.quantum.circuits.symbolic.sympy_expressions import expression_from_sympy, SYMPY_DIALECT
+    from orquestra.quantum.circuits.symbolic.translations import translate_expression
+    vals = {"x": 0.7, "y": -1.3, "beta_2": 0.4}
+    NUMERIC = ExpressionDialect(symbol_factory=lambda s: vals[s.name], number_factory=lambda n: complex(n),
+                                known_functions={"add": lambda *a: reduce(operator.add, a), "mul": lambda *a: reduce(operator.mul, a), "div": operator.truediv, "sub": operator.sub,
+                                                 "pow": operator.pow, "cos": cmath.cos, "sin": cmath.sin, "exp": cmath.exp, "sqrt": cmath.sqrt, "tan": cmath.tan, "log": cmath.log,
+                                                 "Abs": abs})
+    e = build(case["tree"])
+    tree = expression_from_sympy(e)
+    try:
+        translate_expression(tree, NUMERIC)
+    except Exception:  # noqa: BLE001
+        pass
+    supported = in_grammar(e)
+    try:
+        r = translate_expression(tree, SYMPY_DIALECT)
+    except Exception as ex:  # noqa: BLE001
+        if supported:
+            return {"ok": False, "msg": "after a translation with another dialect, the sympy dialect refuses %s: %s" % (e, ex), "sig": "dialect-history:refused"}
+        return {"ok": True, "nt": True, "out": "refused"}
+    if not supported and not isinstance(r, sympy.Basic):
+        return {"ok": False, "msg": "after a translation with another dialect, the sympy dialect no longer refuses %s and returns %r" % (e, r), "sig": "dialect-history:accepted"}
+    v = value(e, ASSIGN[0])
+    w = value(sympy.sympify(r), ASSIGN[0]) if isinstance(r, (sympy.Basic, int, float, complex)) else None
+    if v is not None and (w is None or abs(w - v) > 1e-9 * max(1, abs(v))) or not isinstance(r, (sympy.Basic, int, float, complex)):
+        return {"ok": False, "msg": "after a translation with another dialect, the sympy translation of %s is %r" % (e, r), "expected": str(v), "observed": str(w), "sig": "dialect-history:value"}
+    return {"ok": True, "nt": True, "out": "same"}
+
+
+FUNCS = {"dialect_history": dialect_history_case, "trees": tree_case, "nary": tree_case, "unsupported": unsupported_case, "natural_keys": keys_case, "natural_keys_literal": literal_case}
 
 
 def depth1(atoms):
@@ -246,11 +285,23 @@ def run(run):
                  ["nadd", a, ["neg", b], c], ["sub", a, ["add", b, c]]]
     for a, b in itertools.product(atoms3 + [["add", "x", "1"], ["sin", "y"], ["mul", "x", "y"]], repeat=2):
         nary += [["upow", a, b], ["pow", a, b], ["nadd", a, b], ["nmul", a, b], ["nadd", a, a, b], ["nmul", a, a, b], ["div", ["cos", a], ["mul", b, ["add", "y", "1"]]]]
+    # wide n-ary sums and products: 2..16 pairwise different operands
+    for n in range(2, len(WIDE_TERMS) + 1):
+        for off in (0, 3):
+            terms = (WIDE_TERMS[off:] + WIDE_TERMS[:off])[:n]
+            nary += [["nadd"] + terms, ["nmul"] + terms, ["cos", ["nadd"] + terms], ["pow", ["nmul"] + terms, "2"]]
+            e_add, e_mul = terms[0], terms[0]
+            for t in terms[1:]:
+                e_add, e_mul = ["add", e_add, t], ["mul", e_mul, t]
+            nary += [e_add, e_mul]
     secs.append(Section("nary", [{"trees": nary[i:i + blk]} for i in range(0, len(nary), blk)], tree_case, horizon=900, chunk=1, desc="n-ary / unevaluated sums, products (with reciprocal factors) and powers, repeated operands"))
     ctx = [lambda u: u, lambda u: ["add", u, "x"], lambda u: ["mul", "2", u], lambda u: ["cos", u], lambda u: ["pow", u, "2"], lambda u: ["div", "1", u], lambda u: ["sub", "y", u], lambda u: ["sqrt", u],
            lambda u: ["pow", "2", u]]
     uc = [{"tree": c(["u:" + nm, a])} for nm in UNSUPPORTED for a in ("x", "2", ["add", "x", "y"]) for c in ctx]
     secs.append(Section("unsupported", uc, unsupported_case, horizon=120, desc="unsupported constructs at every position of every depth-<=1 context: refused, never changed"))
+    dh = [{"tree": t} for t in [["add", "x", ["mul", "2", "y"]], ["cos", ["add", "x", "1"]], ["pow", "x", "y"], ["div", "x", ["mul", "y", "2"]], ["u:log", "x"], ["add", ["u:log", "x"], "1"],
+                                ["u:Abs", "y"], ["mul", "2", ["u:log", ["add", "x", "2"]]], ["sqrt", ["add", "x", "2"]], ["exp", ["mul", "I", "x"]]]]
+    secs.append(Section("dialect_history", dh, dialect_history_case, chunk=len(dh), desc="translate with another dialect first, then with the sympy dialect, in one process"))
     alpha = "ab_0129"
     Ln = 5 if thorough else 4
     names = ["".join(p) for k in range(1, Ln + 1) for p in itertools.product(alpha, repeat=k)]
